@@ -918,6 +918,10 @@ impl<'cmd> Parser<'cmd> {
 
         let skip = self.flag_subcmd_skip;
         self.flag_subcmd_skip = 0;
+        if skip == 0 {
+            // A fresh group of short flags: forget the flag subcommand recorded in an earlier group
+            self.flag_subcmd_at = None;
+        }
         let res = short_arg.advance_by(skip);
         debug_assert_eq!(
             res,
